@@ -6,7 +6,7 @@ CONSTANTS
   ExtraPayloads = {}
   Sizes <- MCSizesBig
   Runes <- MCRunes
-  RErrs = {"EOF", "boom", "panic"}
+  RErrs = {"EOF", "panic"}
   WErrs = {"nil", "boom", "panic"}
   MaxLen = 5
 CONSTRAINT Bound
